@@ -346,6 +346,25 @@ def _exec_one(check: Check, scn: dict) -> dict:
         r = Result()
         r.discarded = f"discard: {d}"
         return r.pack()
+    except Exception as e:  # noqa: BLE001
+        # An exception that escapes a check is a harness error - unless it was raised *by the code under test* on an input the
+        # check considers legal (every check runs clean on the unchanged tree, so there such an exception is itself the news).
+        tb = e.__traceback__
+        last = None
+        while tb is not None:
+            last = tb
+            tb = tb.tb_next
+        fn = (last.tb_frame.f_code.co_filename if last is not None else "").replace("\\", "/")
+        repo = os.path.realpath(os.environ.get("VERIF_REPO", "/repo")) + "/black_it/"
+        if not os.path.realpath(fn).startswith(repo):
+            raise
+        r = Result()
+        where = os.path.relpath(os.path.realpath(fn), repo)
+        r.add("raised-by-black-it", f"{type(e).__name__}:{where}",
+              f"{type(e).__name__}: {str(e)[:200]} raised at black_it/{where}:{last.tb_lineno} on an input the check treats as legal; "
+              f"call chain: {' <- '.join(f.name for f in reversed(traceback.extract_tb(e.__traceback__)[-5:]))}")
+        r.digest = jdigest(["raised-by-black-it", type(e).__name__, where])
+        return r.pack()
 
 
 _CHECK: Check | None = None
